@@ -104,3 +104,13 @@ Theorem C01_decide_complete : forall U act_ge pa db,
   forall c p r cands, In c db -> ck c = KRequires p r cands -> lit_istrue pa (p, true) = true ->
   concat cands = [] \/ exists x, In x (concat cands) /\ pval pa (VSol x) = Some true.
 Proof. exact decide_complete. Qed.
+
+(* prop_complete, evaluated at every call of decide in every hook log: every
+   assertion of the database (exclusion, Unknown dependencies, requirement
+   without candidates, unit learnt clause) is in force whenever the solver
+   branches *)
+From Resolvo Require Import Cdcl.PropComplete.
+
+Theorem C01_complete_units_hold : forall db pa c l,
+  prop_complete db pa = true -> In c db -> cl_lits c = [l] -> lit_istrue pa l = true.
+Proof. exact complete_units_hold. Qed.
